@@ -33,7 +33,7 @@ static void run_unit(const std::map<std::string,std::string>& spec)
     Shape s = shape_by_name(spec_get(spec,"shape"));
     std::string sel = spec_get(spec,"sel","all");
     g_kind=k.name(); g_shape=s.name;
-    std::vector<double> V = alphabet(k);
+    std::vector<double> V = alphabet_for(k,shape_by_name(spec_get(spec,"shape")));
     long P = s.points(k.rel);
     unsigned long U = ipow(V.size(),P);
     std::vector<unsigned long> idx;
